@@ -42,6 +42,7 @@ type Spec struct {
 	Conf    map[string]string `json:"conf,omitempty"`    // top-level YAML overrides
 	ZKConf  map[string]string `json:"zkconf,omitempty"`  // zookeeper: overrides
 	OptConf map[string]string `json:"optconf,omitempty"` // optimization_config: overrides
+	CustomLag bool            `json:"custom_lag,omitempty"` // configure queries.replication_lag (lag independent of thread state)
 }
 
 func (s Spec) AllHosts() []string {
@@ -170,6 +171,9 @@ func (h *H) yaml(id, host string) string {
 		fmt.Fprintf(&b, "%s: %s\n", k, top[k])
 	}
 	b.WriteString("exclude_users: ['repl', 'admin', 'monitor']\n")
+	if s.CustomLag {
+		b.WriteString("queries:\n  replication_lag: 'SELECT verif_lag AS Seconds_Behind_Master'\n")
+	}
 	fmt.Fprintf(&b, "mysql:\n  user: %s\n  password: adminpw\n  replication_user: repl\n  replication_password: replpw\n  pid_file: /vfs/%s/mysqld.pid\n  error_log: /vfs/%s/error.log\n", id, host, host)
 	zk := map[string]string{"hostname": host, "namespace": vns, "session_timeout": "3s", "lock_held_ttl": "0s", "backoff_rand_factor": "0",
 		"backoff_max_retries": "3", "backoff_interval": "100ms"}
@@ -380,6 +384,16 @@ func (h *H) BuildConverged() {
 	act := append([]string(nil), s.HA...)
 	sort.Strings(act)
 	z.Put(vns+"/active_nodes", jsonStr(act))
+}
+
+// InjectHealth writes minimal health records (reachable, role from the fake server) for every
+// host, as a stand-in for the hosts' own health checks where only liveness matters.
+func (h *H) InjectHealth() {
+	for _, host := range h.Spec.AllHosts() {
+		s := h.W.Servers[host]
+		st := &nodestate.NodeState{CheckBy: host, PingOk: s.Up, IsMaster: !s.HasSource, IsReadOnly: s.ReadOnly, IsSuperReadOnly: s.SuperRO, IsOffline: s.Offline}
+		h.W.ZK.Put(vns+"/health/"+host, jsonStr(st))
+	}
 }
 
 // StartAll starts one mysync per host and publishes every host's health record.
